@@ -1,2 +1,215 @@
-(* placeholder while the model is validated *)
-From PV Require Import Stages.Model.
+(* C12 - Streaming pipeline stages are chunk-invariant and keep a contiguous time base.
+   Property theorems only; every proof is `exact <lemma of Stages/Proofs*.v>`.
+
+   Reading guide (definitions in Stages/Model.v and Stages/Spec.v):
+     mkstream h s ds          the chunks ds of the stream `concat ds`, sent one after the other; h = plain ndarray or
+                              PipelineData annotations (fs divisor, channel labels, metadata), first sample number s
+     run step init chunks     everything the coroutine passes to its target while it receives the chunks (None = raises)
+     emits_values r want      r did not raise and the concatenation of all emitted data is `want`
+     emits_contiguous r h s   r did not raise, every emitted block carries annotations h, the first starts at s, each
+                              next one starts where the previous ended; hence the concat model joins them into one block
+   Every theorem is for EVERY stream, EVERY chunking ds into non-empty chunks (any number, any sizes, also smaller than
+   q / the block size), plain and annotated headers h, 1-D and 2-D; sample values are an abstract type, the filter
+   recurrence [filt], the RMS [agg], the difference [sub], the threshold [thr]/[ge] are abstract functions. *)
+From PV Require Import Stages.Model Stages.Spec Stages.ProofsC Stages.ProofsD.
+
+(* ---------------- blocked: consecutive blocks of exactly bs samples ---------------- *)
+Theorem C12_blocked_values : forall (A : Type) bs h s (ds : list (list A)), 1 <= bs -> nonempty_chunks ds ->
+  exists st outs, run (blocked_step bs) blocked_init (mkstream h s ds) = Some (st, outs) /\
+    concat (map dat outs) = take_mult bs (concat ds) /\ Forall (fun o => zlen (dat o) = bs) outs.
+Proof. exact @blocked_values. Qed.
+Print Assumptions C12_blocked_values.
+Theorem C12_blocked_contiguous : forall (A : Type) bs h s (ds : list (list A)), 1 <= bs -> nonempty_chunks ds ->
+  emits_contiguous (run (blocked_step bs) blocked_init (mkstream h s ds)) h s.
+Proof. exact @blocked_contiguous. Qed.
+Print Assumptions C12_blocked_contiguous.
+
+(* ---------------- discard: the stream minus its first d samples ---------------- *)
+Theorem C12_discard_values : forall (A : Type) d h s (ds : list (list A)), 0 <= d -> nonempty_chunks ds ->
+  emits_values (run discard_step d (mkstream h s ds)) (discarded d (concat ds)).
+Proof. exact @discard_values. Qed.
+Print Assumptions C12_discard_values.
+Theorem C12_discard_contiguous : forall (A : Type) d h s (ds : list (list A)), 0 <= d -> nonempty_chunks ds ->
+  emits_contiguous (run discard_step d (mkstream h s ds)) h (s + d).
+Proof. exact @discard_contiguous. Qed.
+Print Assumptions C12_discard_contiguous.
+
+(* ---------------- downsample: every q-th sample; output rate fs / q ---------------- *)
+Theorem C12_downsample_values : forall (A : Type) q h s (ds : list (list A)), 1 <= q -> nonempty_chunks ds ->
+  emits_values (run (downsample_step true q) ds_init (mkstream h s ds)) (downsampled q (concat ds)).
+Proof. exact @downsample_values. Qed.
+Print Assumptions C12_downsample_values.
+Theorem C12_downsample_contiguous : forall (A : Type) q h s (ds : list (list A)), 1 <= q -> nonempty_chunks ds ->
+  emits_contiguous (run (downsample_step true q) ds_init (mkstream h s ds)) (h_scale q h) (h_s0 h s).
+Proof. exact @downsample_contiguous. Qed.
+Print Assumptions C12_downsample_contiguous.
+(* what `downsampled` is: floor(N/q) samples, the k-th one is sample k*q of the stream *)
+Theorem C12_downsampled_is_every_qth : forall (A : Type) q (xs : list A), 1 <= q ->
+  zlen (downsampled q xs) = zlen xs / q /\
+  forall k, 0 <= k < zlen xs / q -> nth_error (downsampled q xs) (Z.to_nat k) = nth_error xs (Z.to_nat (k * q)).
+Proof. exact @downsampled_nth. Qed.
+Print Assumptions C12_downsampled_is_every_qth.
+
+(* ---------------- decimate: filter the WHOLE signal from state zf0, then every q-th sample ---------------- *)
+Theorem C12_decimate_values : forall (A F : Type) (filt : F -> A -> F * A) zf0 q h s (ds : list (list A)),
+  1 <= q -> nonempty_chunks ds ->
+  emits_values (run (decimate_step true filt zf0 q) None (mkstream h s ds)) (decimated filt zf0 q (concat ds)).
+Proof. exact @decimate_values. Qed.
+Print Assumptions C12_decimate_values.
+Theorem C12_decimate_contiguous : forall (A F : Type) (filt : F -> A -> F * A) zf0 q h s (ds : list (list A)),
+  1 <= q -> nonempty_chunks ds ->
+  emits_contiguous (run (decimate_step true filt zf0 q) None (mkstream h s ds)) (h_scale q h) (h_s0 h s).
+Proof. exact @decimate_contiguous. Qed.
+Print Assumptions C12_decimate_contiguous.
+
+(* ---------------- rms: one value per complete block of n samples; output rate fs / n ---------------- *)
+Theorem C12_rms_values : forall (A O : Type) (agg : list A -> O) n h s (ds : list (list A)),
+  1 <= n -> nonempty_chunks ds ->
+  emits_values (run (rms_step true agg n) rms_init (mkstream h s ds)) (rms_blocks agg n (concat ds)).
+Proof. exact @rms_values. Qed.
+Print Assumptions C12_rms_values.
+Theorem C12_rms_contiguous : forall (A O : Type) (agg : list A -> O) n h s (ds : list (list A)),
+  1 <= n -> (n | s) -> nonempty_chunks ds ->
+  emits_contiguous (run (rms_step true agg n) rms_init (mkstream h s ds)) (h_scale n h) (s / n).
+Proof. exact @rms_contiguous. Qed.
+Print Assumptions C12_rms_contiguous.
+
+(* ---------------- derivative (annotated input): first difference against the previous sample ---------------- *)
+Theorem C12_derivative_values : forall (A : Type) (sub : A -> A -> A) init h s (ds : list (list A)),
+  h_an h <> None -> nonempty_chunks ds ->
+  emits_values (run (derivative_step sub init) None (mkstream h s ds)) (derived sub init (concat ds)).
+Proof. exact @derivative_values. Qed.
+Print Assumptions C12_derivative_values.
+Theorem C12_derivative_contiguous : forall (A : Type) (sub : A -> A -> A) init h s (ds : list (list A)),
+  h_an h <> None -> nonempty_chunks ds ->
+  emits_contiguous (run (derivative_step sub init) None (mkstream h s ds)) h s.
+Proof. exact @derivative_contiguous. Qed.
+Print Assumptions C12_derivative_contiguous.
+
+(* ---------------- iirfilter: the one-shot filter started from finit(first sample) ---------------- *)
+Theorem C12_iirfilter_values : forall (A F : Type) (filt : F -> A -> F * A) finit h s (ds : list (list A)),
+  nonempty_chunks ds ->
+  emits_values (run (iir_step true filt finit) None (mkstream h s ds)) (iir_filtered filt finit (concat ds)).
+Proof. exact @iir_values. Qed.
+Print Assumptions C12_iirfilter_values.
+Theorem C12_iirfilter_contiguous : forall (A F : Type) (filt : F -> A -> F * A) finit h s (ds : list (list A)),
+  nonempty_chunks ds ->
+  emits_contiguous (run (iir_step true filt finit) None (mkstream h s ds)) h s.
+Proof. exact @iir_contiguous. Qed.
+Print Assumptions C12_iirfilter_contiguous.
+
+(* ---------------- transform with an elementwise function g ---------------- *)
+Theorem C12_transform_values : forall (A O : Type) (g : A -> O) h s (ds : list (list A)), nonempty_chunks ds ->
+  emits_values (run (map_step g) tt (mkstream h s ds)) (map g (concat ds)).
+Proof. exact @map_values. Qed.
+Print Assumptions C12_transform_values.
+Theorem C12_transform_contiguous : forall (A O : Type) (g : A -> O) h s (ds : list (list A)), nonempty_chunks ds ->
+  emits_contiguous (run (map_step g) tt (mkstream h s ds)) h s.
+Proof. exact @map_contiguous. Qed.
+Print Assumptions C12_transform_contiguous.
+
+(* ---------------- mc_reference: a sample is the column of all channels, g the product with the matrix ---------------- *)
+Theorem C12_mc_reference_values : forall (Col : Type) (g : Col -> Col) h s (ds : list (list Col)), nonempty_chunks ds ->
+  emits_values (run (map_step g) tt (mkstream h s ds)) (map g (concat ds)).
+Proof. exact (fun Col => @map_values Col Col). Qed.
+Print Assumptions C12_mc_reference_values.
+Theorem C12_mc_reference_contiguous : forall (Col : Type) (g : Col -> Col) h s (ds : list (list Col)), nonempty_chunks ds ->
+  emits_contiguous (run (map_step g) tt (mkstream h s ds)) h s.
+Proof. exact (fun Col => @map_contiguous Col Col). Qed.
+Print Assumptions C12_mc_reference_contiguous.
+
+(* ---------------- auto_th: nothing until Bn samples arrived, then every sample compared with the threshold
+   computed from the stream's first Bn samples ---------------- *)
+Theorem C12_auto_th_values : forall (A T O : Type) (thr : list A -> T) (ge : T -> A -> O) Bn h s (ds : list (list A)),
+  0 <= Bn -> nonempty_chunks ds ->
+  emits_values (run (autoth_step thr ge Bn) (AthAcc None) (mkstream h s ds)) (thresholded thr ge Bn (concat ds)).
+Proof. exact @autoth_values. Qed.
+Print Assumptions C12_auto_th_values.
+Theorem C12_auto_th_contiguous : forall (A T O : Type) (thr : list A -> T) (ge : T -> A -> O) Bn h s (ds : list (list A)),
+  0 <= Bn -> nonempty_chunks ds ->
+  emits_contiguous (run (autoth_step thr ge Bn) (AthAcc None) (mkstream h s ds)) h s.
+Proof. exact @autoth_contiguous. Qed.
+Print Assumptions C12_auto_th_contiguous.
+
+(* ---------------- event_rate: event counts of the sliding windows of the whole span ---------------- *)
+Theorem C12_event_rate_values : forall bsz stp lo (cs : list events),
+  0 <= bsz -> 1 <= stp -> cs <> [] -> ev_stream lo cs ->
+  exists st outs, run (er_step true bsz stp) None cs = Some (st, outs) /\
+    concat (map r_counts outs) = event_rates bsz stp (ev_all cs) lo (ev_end lo cs).
+Proof. exact event_rate_values. Qed.
+Print Assumptions C12_event_rate_values.
+Theorem C12_event_rate_contiguous : forall bsz stp lo (cs : list events),
+  0 <= bsz -> 1 <= stp -> cs <> [] -> ev_stream lo cs ->
+  exists st outs, run (er_step true bsz stp) None cs = Some (st, outs) /\ r_contiguous (2 * lo + bsz) stp outs.
+Proof. exact event_rate_contiguous. Qed.
+Print Assumptions C12_event_rate_contiguous.
+
+(* ---------------- what contiguity buys (concat model of pipeline.concat) ---------------- *)
+Theorem C12_contiguous_concat : forall (A : Type) h s (outs : list (blk A)), contiguous h s outs -> outs <> [] ->
+  concat_list outs = Some (mk h s (concat (map dat outs))).
+Proof. exact @contiguous_concat_all. Qed.
+Print Assumptions C12_contiguous_concat.
+
+(* ---------------- the code before the fix-C12 commits violated the property ---------------- *)
+(* downsample kept the input-rate s0: consecutive annotated outputs do not concatenate *)
+Theorem C12_downsample_unrepaired_refuted : exists (q : Z) (h : hdr) (s0 : Z) (ds : list (list Z)),
+  1 <= q /\ nonempty_chunks ds /\
+  exists st outs, run (downsample_step false q) ds_init (mkstream h s0 ds) = Some (st, outs) /\
+                  outs <> [] /\ concat_list outs = None.
+Proof. exact downsample_unrepaired_refuted. Qed.
+Print Assumptions C12_downsample_unrepaired_refuted.
+(* decimate filtered the held-back remainder twice: chunked output <> filter-then-pick (filter y[n] = x[n] + 2 y[n-1] mod 1009) *)
+Theorem C12_decimate_unrepaired_refuted : exists (q : Z) (h : hdr) (s0 : Z) (ds : list (list Z)),
+  1 <= q /\ nonempty_chunks ds /\
+  exists st outs, run (decimate_step false cfilt 0 q) None (mkstream h s0 ds) = Some (st, outs) /\
+                  concat (map dat outs) <> decimated cfilt 0 q (concat ds).
+Proof. exact decimate_unrepaired_refuted. Qed.
+Print Assumptions C12_decimate_unrepaired_refuted.
+(* iirfilter dropped channel labels and metadata *)
+Theorem C12_iirfilter_unrepaired_refuted : exists (h : hdr) (s0 : Z) (ds : list (list Z)),
+  nonempty_chunks ds /\
+  exists st outs, run (iir_step false cfilt (fun x => x)) None (mkstream h s0 ds) = Some (st, outs) /\
+                  ~ contiguous h s0 outs.
+Proof. exact iir_unrepaired_refuted. Qed.
+Print Assumptions C12_iirfilter_unrepaired_refuted.
+(* rms on 1-D annotated input labelled its output with one channel per block *)
+Theorem C12_rms_unrepaired_refuted : exists (n : Z) (h : hdr) (s0 : Z) (ds : list (list Z)),
+  1 <= n /\ nonempty_chunks ds /\
+  exists st outs, run (rms_step false (sagg n) n) rms_init (mkstream h s0 ds) = Some (st, outs) /\
+                  outs <> [] /\ concat_list outs = None.
+Proof. exact rms_unrepaired_refuted. Qed.
+Print Assumptions C12_rms_unrepaired_refuted.
+(* event_rate processed the first chunk only when a second one arrived *)
+Theorem C12_event_rate_unrepaired_refuted : exists (bsz stp : Z) (cs1 cs2 : list events),
+  ev_stream 0 cs1 /\ ev_stream 0 cs2 /\ ev_all cs1 = ev_all cs2 /\ ev_end 0 cs1 = ev_end 0 cs2 /\
+  exists st1 o1 st2 o2,
+    run (er_step false bsz stp) None cs1 = Some (st1, o1) /\
+    run (er_step false bsz stp) None cs2 = Some (st2, o2) /\
+    concat (map r_counts o1) <> concat (map r_counts o2).
+Proof. exact event_rate_unrepaired_refuted. Qed.
+Print Assumptions C12_event_rate_unrepaired_refuted.
+
+(* ---------------- non-vacuity: hypotheses are satisfiable, and what the runs look like ---------------- *)
+Example C12_ex_chunks : nonempty_chunks [[0; 1; 2]; [3]; [4; 5; 6; 7; 8; 9]].
+Proof. repeat constructor; discriminate. Qed.
+(* 2-channel annotated stream (labels 1,2; metadata 7) starting at sample 60, chunks of 3, 1 and 6 samples *)
+Example C12_ex_downsample :
+  outs_of (run (downsample_step true 4) ds_init (mkstream (Hdr true (Some (1, Some [1; 2], 7))) 60 [[0; 1; 2]; [3]; [4; 5; 6; 7; 8; 9]]))
+  = Some [Blk [] true (Some (An 60 4 (Some [1; 2]) 7)); Blk [0] true (Some (An 60 4 (Some [1; 2]) 7));
+          Blk [4] true (Some (An 61 4 (Some [1; 2]) 7))].
+Proof. vm_compute. reflexivity. Qed.
+Example C12_ex_decimate :
+  outs_of (run (decimate_step true cfilt 0 3) None (mkstream (Hdr false None) 0 [[1; 2]; [3; 4; 5]; [6; 7]]))
+  = Some [Blk [1] false None; Blk [26] false None] /\
+  decimated cfilt 0 3 [1; 2; 3; 4; 5; 6; 7] = [1; 26].
+Proof. vm_compute. split; reflexivity. Qed.
+Example C12_ex_rms : (3 | 180) /\
+  outs_of (run (rms_step true (sagg 3) 3) rms_init (mkstream (Hdr false (Some (1, None, 7))) 180 (cut [2; 5; 1] 0)))
+  = Some [Blk [0; 1] false (Some (An 60 3 None 7))].
+Proof. split; [exists 60; reflexivity|vm_compute; reflexivity]. Qed.
+Example C12_ex_derivative : h_an (Hdr false (Some (1, None, 7))) <> None.
+Proof. discriminate. Qed.
+Example C12_ex_event_rate : ev_stream 0 [Ev [1; 3] 0 5; Ev [6] 5 9] /\
+  outs_of (run (er_step true 3 2) None [Ev [1; 3] 0 5; Ev [6] 5 9]) = Some [Rb [1] 3 2; Rb [1; 1] 5 2] /\
+  event_rates 3 2 [1; 3; 6] 0 9 = [1; 1; 1].
+Proof. split; [cbn; repeat split; try lia; repeat constructor; lia|]. vm_compute. split; reflexivity. Qed.
